@@ -224,8 +224,18 @@ sexp sexp_bit_count (sexp ctx, sexp self, sexp_sint_t n, sexp x) {
     res = sexp_make_fixnum(bit_count(i<0 ? ~i : i));
 #if SEXP_USE_BIGNUMS
   } else if (sexp_bignump(x)) {
-    for (i=count=0; i<(sexp_sint_t)sexp_bignum_length(x); i++)
-      count += bit_count(sexp_bignum_data(x)[i]);
+    if (sexp_bignum_sign(x) < 0) {
+      /* count the ones of (bitwise-not x) = |x| - 1 */
+      sexp_uint_t borrow = 1, w;
+      for (i=count=0; i<(sexp_sint_t)sexp_bignum_length(x); i++) {
+        w = sexp_bignum_data(x)[i] - borrow;
+        borrow = (borrow && sexp_bignum_data(x)[i] == 0);
+        count += bit_count(w);
+      }
+    } else {
+      for (i=count=0; i<(sexp_sint_t)sexp_bignum_length(x); i++)
+        count += bit_count(sexp_bignum_data(x)[i]);
+    }
     res = sexp_make_fixnum(count);
 #endif
   } else {
@@ -266,8 +276,16 @@ sexp sexp_integer_length (sexp ctx, sexp self, sexp_sint_t n, sexp x) {
 #if SEXP_USE_BIGNUMS
   } else if (sexp_bignump(x)) {
     hi = sexp_bignum_hi(x);
-    return sexp_make_fixnum(integer_log2(sexp_bignum_data(x)[hi-1])
-                            + (hi-1)*sizeof(sexp_uint_t)*CHAR_BIT);
+    tmp = integer_log2(sexp_bignum_data(x)[hi-1])
+      + (hi-1)*sizeof(sexp_uint_t)*CHAR_BIT;
+    if (sexp_bignum_sign(x) < 0
+        && (sexp_bignum_data(x)[hi-1] & (sexp_bignum_data(x)[hi-1] - 1)) == 0) {
+      /* -2^k needs only k bits: the length of |x| - 1 */
+      for (hi-=2; hi >= 0 && sexp_bignum_data(x)[hi] == 0; hi--)
+        ;
+      if (hi < 0) tmp--;
+    }
+    return sexp_make_fixnum(tmp);
 #endif
   } else {
     return sexp_type_exception(ctx, self, SEXP_FIXNUM, x);
@@ -292,6 +310,15 @@ sexp sexp_bit_set_p (sexp ctx, sexp self, sexp_sint_t n, sexp i, sexp x) {
   } else if (sexp_bignump(x)) {
     pos /= (sizeof(sexp_uint_t)*CHAR_BIT);
     rem = (sexp_unbox_fixnum(i) - pos*sizeof(sexp_uint_t)*CHAR_BIT);
+    if (sexp_bignum_sign(x) < 0 && pos < (sexp_sint_t)sexp_bignum_length(x)) {
+      /* bit of the twos complement = inverted bit of |x| - 1 */
+      sexp_uint_t w = sexp_bignum_data(x)[pos];
+      sexp_sint_t k;
+      for (k=pos-1; k >= 0 && sexp_bignum_data(x)[k] == 0; k--)
+        ;
+      if (k < 0) w--;           /* borrow reaches this word */
+      return sexp_make_boolean(!(w & ((sexp_uint_t)1<<rem)));
+    }
     return sexp_make_boolean((pos < (sexp_sint_t)sexp_bignum_length(x))
                              ? (sexp_bignum_data(x)[pos] & ((sexp_uint_t)1<<rem))
                              : sexp_bignum_sign(x) < 0);
